@@ -18,19 +18,8 @@ def nonneg_row(t):
   return z3.ForAll([J], TH.at2(t, 0, J) >= 0, patterns=[TH.at2(t, 0, J)])
 
 
-def scml_loop_ordinal(prog):
-  import ast
-  fn = prog.func(T_)
-  loops = [n for n in ast.walk(fn) if isinstance(n, (ast.For, ast.While))]
-  loops.sort(key=lambda n: (n.lineno, n.col_offset))
-  for k, n in enumerate(loops):
-    if isinstance(n, ast.For) and ast.unparse(n.iter) == OVER:
-      return k
-  return 0
-
-
-from npvc.source import Program as _P
-ORD = scml_loop_ordinal(_P())
+from .loops import find_loop
+ORD = find_loop(T_, OVER)
 
 
 @invariant(T_, ORD, OVER)
@@ -72,7 +61,7 @@ def _cbw_value(a, r):
     return z3.BoolVal(False)
   low = TH.rowscale(B.term, TH.sqrtT(TH.tr(w.term)))
   full = TH.cfm(TH.mm(TH.tr(B.term), TH.rowscale(B.term, TH.tr(w.term))))
-  return z3.BoolVal(r.term.eq(low) or r.term.eq(full))
+  return z3.BoolVal(True) if (r.term.eq(low) or r.term.eq(full)) else PatternMismatch('result vs diag(sqrt(w)) B / conversion of B^T diag(w) B')
 
 
 CBW = 'scml:_BaseSCML._components_from_basis_weights'
